@@ -354,7 +354,7 @@ function plus fuel.  The theorems below run these programs on primitives that ar
 the methods changes the generated program and breaks the theorem about it. -/
 
 namespace Edzed.TrTie
-open Edzed.OutputAsync Edzed.OutputAsync.Shield Edzed.Gen.TrD Edzed.Gen.TrOA
+open Edzed.TrTie.OA Edzed.OutputAsync Edzed.OutputAsync.Shield Edzed.Gen.TrD Edzed.Gen.TrOA
 
 /-- **`shield_cancel` as translated IS the model's `shieldCancel`**: for every script of what the successive
     `await asyncio.shield(task)` yield, the translated function re-awaits the shielded task after each
